@@ -91,6 +91,16 @@ partial def go (steps res : List String) (k : Nat) (pool : List (Option TA)) (f 
         f := f ++ [s!"mismatch step {k} load+dump changes the number of rules"]
       pool' := pool ++ [some D]
       touched := some newIx
+    | "rt" =>
+      -- C13: dump → Timbuk text → load into a fresh automaton of the same encoding → dump by names: the same rules and
+      -- final states under the same state names
+      let ix ← argN 1
+      let _ ← ent 1
+      let cur ← getE (← dumpAt res k ix) "missing dump"
+      let D ← getE ((kv res s!"rt{k}") >>= parseTA?) "missing reload dump"
+      if !taEq D cur then
+        f := f ++ [s!"violation step {k}: dump / load / dump shows {showTA D} for an automaton that dumps as {showTA cur}"]
+      tags := tags ++ ["rt=1"]
     | "copy" =>
       let A ← ent 1
       pool' := pool ++ [some A]
